@@ -90,7 +90,13 @@ def xceiling(num, sig, ceil=math.ceil, dfl=0):
         return dfl
     elif sig < 0 < num:
         return np.nan
-    return ceil(num / sig) * sig
+    if not (np.isfinite(num) and np.isfinite(sig)):
+        return np.nan
+    # Uses the numbers as they are written (0.3 / 0.1 is 3, not 2.9999...).
+    with localcontext() as ctx:
+        ctx.prec = 1000
+        num, sig = Decimal(repr(float(num))), Decimal(repr(float(sig)))
+        return float(ceil(num / sig) * sig)
 
 
 FUNCTIONS['CEILING'] = wrap_ufunc(xceiling)
@@ -249,7 +255,9 @@ def xmround(*args):
         return Error.errors['#VALUE!']
     num, sig = float(num), float(sig)
     with np.errstate(divide='ignore', invalid='ignore'):
-        x = num < 0 < sig and np.nan or xceiling(num, sig, ceil=np.round)
+        x = num < 0 < sig and np.nan or xceiling(
+            num, sig, ceil=lambda v: int(np.round(float(v)))
+        )
     return (np.isnan(x) or np.isinf(x)) and Error.errors['#NUM!'] or x
 
 
